@@ -997,7 +997,7 @@ class Grid(object):
         points = self.cell2coord(ncells)
 
         # Get list of cells inside polygon
-        inside = gutils.points_inside_polygon(points, polygon)
+        inside = gutils.points_inside_polygon(points, polygon, atol=atol)
         inside = inside.astype(bool)
 
         dd = {
